@@ -5,10 +5,18 @@ ROOT = os.path.dirname(os.path.dirname(os.path.abspath(__file__)))
 
 # property id -> (design_ref, technique, level text, level note)
 CHECKS = {
+ "C06": ("DESIGN.md §4 C06",
+         "generated-input search: exhaustive strings over {CR,LF,x} (length<=L) + random strings over the canonicalization alphabet, every sign interface crossed with every applicable verify interface (pairwise oracle: own signature must verify), prefixed messages assembled by an independent framer",
+         "exploration: all 3-symbol strings up to length 6 (thorough 8) and random Sigma strings incl. buffer-edge placements; sign interfaces {detached binary/text, SignatureConfig::sign, hasher+Write chunks, builder 1..3 signers, cleartext sign/new/new_many} x verify interfaces {Signature::verify, DetachedSignature::verify, re-parsed binary/armored, Message::verify prefixed and one-pass, verify_nested, extracted one-pass signature as detached, cleartext verify/verify_many/after armor}; all zoo algorithms sampled",
+         "only completeness (own signatures verify) is asserted here; soundness is C02; hash algorithms are restricted to those rPGP documents as strong enough for the key"),
  "C10": ("DESIGN.md §4 C10",
          "generated-input search (enumerated lengths + seeded structured tapes) against an independent CRC-24/base64/line-structure oracle, metamorphic tolerance variants, accept-iff-match CRC decision",
          "exploration: every payload length 0..700 (thorough 0..4096, sampled to 1 MiB) x block type x header map x checksum x read schedule x consumer; writer output validated by an independent armor structure parser; reader compared with the original triple",
          "trusts the harness' own bitwise CRC-24, base64 codec and line parser; cannot show absence outside the explored lengths/headers"),
+ "C14": ("DESIGN.md §4 C14",
+         "exhaustive small-scope enumeration (all strings over {CR,LF,x} up to length L x all chunkings) + seeded random long strings on buffer edges, differential against a 10-line reference canonicalizer and an independently computed SHA-256 signature digest",
+         "exploration with an exhaustively enumerated scope: every string of length <=8 (thorough <=10) over the 3-class alphabet under every source/write chunking and three consumer patterns for NormalizedReader, NormalizingHasher (observed via recording signer) and normalize_lines (observed via the cleartext callback); long strings with patterns on 512/1024/8192 edges; builder and message-reader digests; signature invariance/non-invariance under all single-symbol edits; Utf8-mode CRLF check accept/reject under all chunkings",
+         "reference canon() and the RustCrypto sha2 digest are trusted; the three-class abstraction is justified by the code branching only on CR, LF, other"),
 }
 NOT_BUILT_REASON = "check not built yet in this round (work in progress; property-based testing applies, see DESIGN.md §4)"
 ALL = ["C%02d" % i for i in range(1, 20)]
